@@ -10,6 +10,7 @@ op   = ["getref", pt, w] | ["get", pt] | ["append", path, c, v] | ["setitem", pa
 w    = ["none"] | ["assign", v] | ["add", v];  spk = None or a seed k (start_pos = k mod len)
 observation = [state0, [[outcome, state] per op]]; state = [tree, rank paths, owners_ok]
 """
+import json
 import coqlit as L
 import ftutil as U
 
@@ -469,7 +470,15 @@ def do_op(T, n, o, d=0):
 def run_impl(case):
     from fibertree.core.fiber import CoordinateError
     n = case["n"]
-    T = U.build_tensor(case["tree"], n, [SHAPE] * n, case["d"])
+    # every third history runs on a tensor whose shape is only estimated at construction (and is
+    # stale as soon as the history inserts beyond it): no modelled operation may consult it
+    import os
+    # (only from trees with a full-depth path: a rank whose estimate is empty has no shape at all, and
+    # updateCoords then trips its closing "type of shape" assertion after doing its work - an error
+    # that is not a rejection for coordinate order and that C01-C03 say nothing about)
+    est = ((len(json.dumps(case, sort_keys=True)) % 3 == 0) or os.environ.get("STORE_EST") == "1") \
+        and _full_depth(case["tree"], n)
+    T = U.build_tensor(case["tree"], n, None if est else [SHAPE] * n, case["d"])
     out = [state_obs(T, n)]
     steps = []
     for o in case["ops"]:
@@ -481,6 +490,12 @@ def run_impl(case):
             oc = [3, type(e).__name__.__len__()]
         steps.append([oc, state_obs(T, n)])
     return [out[0], steps]
+
+
+def _full_depth(t, n):
+    if n == 0:
+        return True
+    return any(_full_depth(sub, n - 1) for _, sub in t) if isinstance(t, list) else False
 
 
 def repro_py(case):
